@@ -6,6 +6,8 @@ only = sys.argv[1:]
 rows = []
 for d in sorted(glob.glob(VERIF + '/seeded/*/')):
     name = os.path.basename(d.rstrip('/'))
+    if not os.path.exists(d + 'meta.json'):
+        continue
     if only and not any(name.startswith(o) for o in only):
         continue
     meta = json.load(open(d + 'meta.json'))
